@@ -9,6 +9,7 @@ var commands = map[string]func([]string){
 	"imports":      cmdImports,
 	"cases":        cmdCases,
 	"heap":         cmdHeap,
+	"heap-batch":   cmdHeapBatch,
 	"output":       cmdOutput,
 	"det":          cmdDet,
 	"corpus":       cmdCorpus,
